@@ -46,6 +46,8 @@ def strategy(tier):
 def prop(case, ctx):
     out = Outcome()
     out.label('family:' + case['family'], 'rule:' + case['opts']['rule'])
+    if case.get('planted'):
+        out.label('planted:' + case['planted'])
     if not case['records']:
         return out.label('no_records')
     dom = cveval.known_domain_findings(case)
